@@ -3,7 +3,7 @@ import re
 
 from hypothesis import strategies as st
 
-from vlib import build, parse, pipeline, scenario as S
+from vlib import reads as R, build, parse, pipeline, scenario as S
 from vlib.refmodel import gtfcheck
 from vlib.shard import Stage, case_hash
 from props.c03 import common_opts
@@ -161,6 +161,41 @@ def split_scenarios(draw):
     return sc
 
 
+def _lowmapq_simple(src, annotated):
+    """A novel 1-2 exon model whose full-length reads are reliable while the reads that are attached to it later
+    (unspliced, inside one of its exons) have a low MAPQ: the model passes the first MAPQ filter and is withdrawn by
+    the last one, after reads were assigned to it."""
+    strand = src.choice(["+", "-"])
+    a0 = src.int(500, 1200)
+    known = [[a0, a0 + 300], [a0 + 700, a0 + 1000], [a0 + 1400, a0 + 1700]]
+    n0 = known[-1][1] + src.int(1500, 2500)
+    novel = [[n0, n0 + src.int(250, 400)], [n0 + 900, n0 + 900 + src.int(500, 700)]]
+    reads = []
+    k = 0
+    for _ in range(src.int(3, 6)):
+        k += 1
+        reads.append(S.exact_read("k%d" % k, "chr1", strand, known, polya=25))
+    for _ in range(src.int(3, 5)):
+        k += 1
+        reads.append(S.exact_read("n%d" % k, "chr1", strand, novel, polya=src.int(22, 30), mapq=60))
+    for _ in range(src.int(6, 10)):
+        k += 1
+        e = novel[1]
+        a = e[0] + src.int(20, 80)
+        reads.append(R.make_read("u%d" % k, "chr1", [[a, a + src.int(150, 300)]], flag=16 if strand == "-" else 0,
+                                 mapq=src.choice([5, 8, 10, 12])))
+    overrides = build.splice_overrides("chr1", known, strand) + build.splice_overrides("chr1", novel, strand)
+    genes = [{"id": "G1", "chr": "chr1", "strand": strand, "canon": "canon",
+              "transcripts": [{"id": "T1", "exons": known}]}] if annotated else []
+    return {"chroms": [["chr1", novel[-1][1] + src.int(900, 2000), src.int(1, 10 ** 6)]], "genes": genes,
+            "hidden_genes": [] if annotated else [{"id": "G1", "chr": "chr1", "strand": strand, "canon": "canon",
+                                                   "transcripts": [{"id": "T1", "exons": known}]}],
+            "overrides": overrides, "reads": reads, "nfiles": 1,
+            "gtf": {"gene_records": True, "transcript_records": True},
+            "opts": ["--data_type", src.choice(["nanopore", "pacbio_ccs"]), "--no_gzip", "--threads", "1"],
+            "split_locus": False, "corner": "lowmapq_simple"}
+
+
 @st.composite
 def corner_scenarios(draw):
     """Parametrised corner structures of the intron graph (from the leads in hunt/C04): a minor isoform with a
@@ -169,6 +204,8 @@ def corner_scenarios(draw):
     src = S.DrawSrc(draw)
     annotated = src.bool(0.5)
     strand = "+"
+    if src.bool(0.4):
+        return _lowmapq_simple(src, annotated)
     b = src.int(300, 900)
     e1 = [b, b + src.int(90, 150)]
     e2 = [e1[1] + src.int(250, 400), 0]
